@@ -77,13 +77,43 @@ def call_groups(b):
     return groups
 
 
-def run_unit(unit_dir, tag, tier, want_neg=True):
-    """Build + verify one unit, plus its negative-control runs. Returns a result dict."""
-    res = {"unit": os.path.basename(unit_dir), "undecided": [], "failures": [], "neg": {}, "wall": 0.0}
+def run_unit(unit_dir, tag, tier, want_neg=True, only_part=None):
+    """Build + verify one unit (all its parts). Returns a list of result dicts, one per part."""
+    u = B.load_unit(unit_dir)
+    parts = u.get("part") or [None]
+    out = []
+    with cf.ThreadPoolExecutor(max_workers=max(1, len(parts))) as ex:
+        futs = [ex.submit(run_part, unit_dir, tag, tier, want_neg, pt) for pt in parts
+                if only_part is None or (pt and pt["name"] == only_part)]
+        for f in futs:
+            out.append(f.result())
+    # every function stubbed in one part must have its body verified in another part
+    if parts != [None] and only_part is None:
+        verified = set()
+        for pt in parts:
+            verified |= set(pt["bodies"])
+        for r in out:
+            b = r["built"]
+            if b is None:
+                continue
+            for p in b.pieces:
+                if p.kind == "stub" and p.fnpath not in verified and not p.opts.get("stub_only"):
+                    r["undecided"].append("function %s is stubbed in part %s but verified in no part" % (p.fnpath, r["unit"]))
+    return out
+
+
+def run_part(unit_dir, tag, tier, want_neg, part):
+    name = os.path.basename(unit_dir) + ("_" + part["name"] if part else "")
+    bodies = set(part["bodies"]) if part else None
+    res = {"unit": name, "undecided": [], "failures": [], "neg": {}, "wall": 0.0}
     t0 = time.time()
-    out = os.path.join(BUILD, tag, os.path.basename(unit_dir) + ".rs")
+    out = os.path.join(BUILD, tag, name + ".rs")
     try:
-        b = B.build_unit(unit_dir, out)
+        b = B.build_unit(unit_dir, out, bodies=bodies)
+        if bodies is not None:
+            have = {p.fnpath for p in b.pieces if p.kind == "fn"}
+            for x in bodies - have:
+                raise B.Undecided("%s: part %s lists unknown body %s" % (b.uid, part["name"], x))
     except B.Undecided as e:
         res["undecided"].append(str(e))
         res["built"] = None
@@ -95,9 +125,9 @@ def run_unit(unit_dir, tag, tier, want_neg=True):
         if want_neg:
             for gi, g in enumerate(call_groups(b)):
                 paths = {p.fnpath for p in g}
-                outn = os.path.join(BUILD, tag, "%s_neg%d.rs" % (os.path.basename(unit_dir), gi))
+                outn = os.path.join(BUILD, tag, "%s_neg%d.rs" % (name, gi))
                 try:
-                    bn = B.build_unit(unit_dir, outn, neg_control=paths)
+                    bn = B.build_unit(unit_dir, outn, neg_control=paths, bodies=bodies)
                 except B.Undecided as e:
                     res["undecided"].append("negative control: %s" % e)
                     continue
@@ -278,7 +308,7 @@ def check_property(prop, tier, quiet=False):
     with cf.ThreadPoolExecutor(max_workers=max(1, min(len(units), 8))) as ex:
         futs = [ex.submit(run_unit, u["_dir"], prop, tier) for u in units]
         for f in futs:
-            results.append(f.result())
+            results.extend(f.result())
 
     undecided, violations, ignored = [], [], []
     obligations, discharged = 0, 0
@@ -436,7 +466,14 @@ def check_property(prop, tier, quiet=False):
 # ------------------------------------------------------------------------------------------------
 def cmd_unit(args):
     d = os.path.join(CONTRACTS, args.unit)
-    r = run_unit(d, "dev", "quick", want_neg=args.neg)
+    rc = 0
+    for r in run_unit(d, "dev", "quick", want_neg=args.neg, only_part=args.part):
+        print("---- part", r["unit"])
+        rc = max(rc, show_part(r, args))
+    return rc
+
+
+def show_part(r, args):
     b = r["built"]
     for x in r["undecided"]:
         print("UNDECIDED:", x)
@@ -464,17 +501,17 @@ def cmd_replay(args):
     prop, unit, ob = rp["property"], rp["unit"], rp["obligation"]
     print("replaying %s (%s) on the current tree" % (ob, prop))
     if unit.startswith("U"):
-        d = os.path.join(CONTRACTS, unit)
-        r = run_unit(d, "replay", "quick", want_neg=False)
-        b = r["built"]
+        d = os.path.join(CONTRACTS, unit.split("_")[0])
         hit = False
-        for f in r["failures"]:
-            tags, named, oid = failure_tags(f, b)
-            if oid == ob or (oid and re.sub(r"\[.*\]$", "", oid) == re.sub(r"\[.*\]$", "", ob)):
-                hit = True
-                print(f.rendered)
-        for x in r["undecided"]:
-            print("UNDECIDED:", x)
+        for r in run_unit(d, "replay", "quick", want_neg=False):
+            b = r["built"]
+            for f in (r["failures"] if b is not None else []):
+                tags, named, oid = failure_tags(f, b)
+                if oid == ob or (oid and re.sub(r"\[.*\]$", "", oid) == re.sub(r"\[.*\]$", "", ob)):
+                    hit = True
+                    print(f.rendered)
+            for x in r["undecided"]:
+                print("UNDECIDED:", x)
         if rp.get("counterexample"):
             print("recorded failing input:", json.dumps(rp["counterexample"]))
             X.replay_counterexample(rp)
@@ -528,6 +565,7 @@ def main():
     c.add_argument("unit")
     c.add_argument("--neg", action="store_true")
     c.add_argument("--show", action="store_true")
+    c.add_argument("--part", default=None)
     c = sub.add_parser("replay")
     c.add_argument("file")
     sub.add_parser("setup")
